@@ -1403,6 +1403,12 @@ func exchangeServiceInfoRound(ctx context.Context, transport Transport, mtu uint
 			break
 		}
 		if errors.Is(err, serviceinfo.ErrSizeTooSmall) {
+			if maxRead == mtu && err != serviceinfo.ErrSizeTooSmall { //nolint:errorlint // only the bare error means "no room"
+				// A forced message break before anything was put into this
+				// message: there is nothing to separate, keep reading instead
+				// of ending the round and abandoning what follows
+				continue
+			}
 			msg.IsMoreServiceInfo = true
 			if maxRead == mtu {
 				msg.IsMoreServiceInfo = false // likely due to a yield... but also could be a malicious large key?
